@@ -58,6 +58,8 @@ class Opts:
     always_opid: bool = False
     self_ref: bool = True           # self reference through an array (imports fine, but cannot be decoded: F42)
     defaults: bool = False          # `default` values on enum schemas and primitive properties
+    colliding_props: bool = False   # property names that collide after sanitisation (userId, user_id, user_id_2, user-id)
+    allof_variants: bool = False    # requirement-only allOf parts, own part before the parent, properties next to allOf
     colliding_names: bool = False   # schema names that collide after class-casing / snake-casing (LineItem, line_item, Line-Item)
     ndjson: bool = False            # application/x-ndjson responses (parsed as SSE by the generated code: F43)
     enum_params: bool = True
@@ -189,12 +191,28 @@ def gen_schemas(r: random.Random, o: Opts) -> dict:
             schemas[name] = {"type": "array", "items": _ref(r.choice(earlier)) if earlier and r.random() < 0.6 else _prim(r, o, False)}
             continue
         pnames = r.sample(PROP_NAMES, r.randint(1, 6))
+        if o.colliding_props and r.random() < 0.5:
+            base = r.choice(["userId", "addressLine", "ownerId"])
+            snake = re.sub(r"([a-z])([A-Z])", r"\1_\2", base).lower()
+            pnames = [p for p in pnames if p not in ("userId", "user_id")] + r.sample([base, snake, snake + "_2", snake.replace("_", "-")], r.randint(2, 4))
         if o.mainstream:
             pnames = [p for p in pnames if p not in ("class", "type")] or ["name"]
         if not o.name_clash:
             # F36: a property whose class-cased name starts with the schema name is taken for the schema itself
             pnames = [p for p in pnames if not re.sub(r"[^a-z0-9]", "", p.lower()).startswith(name.lower())] or ["note"]
         props = {p: gen_property(r, o, names, name, earlier, pname=p) for p in pnames}
+        if not o.name_clash:
+            # properties whose class-cased names coincide (userId / user_id / user-id) must not BOTH be promoted (inline object,
+            # map, enum, union): their synthetic class names would collide (recorded with F37)
+            keyc: dict = {}
+            for p in pnames:
+                keyc.setdefault(re.sub(r"[^a-z0-9]", "", p.lower()), []).append(p)
+            for grp in keyc.values():
+                if len(grp) > 1:
+                    for p in grp:
+                        v = props[p]
+                        if v.get("type") not in ("string", "integer", "number", "boolean") or "enum" in v:
+                            props[p] = _prim0(r, o, allow_enum=False)
         obj: dict = {"type": "object", "properties": props}
         req = [p for p in pnames if r.random() < 0.4]
         if req:
@@ -207,13 +225,29 @@ def gen_schemas(r: random.Random, o: Opts) -> dict:
             own = {k: v for k, v in props.items() if k not in _all_props(schemas, parent)}
             if not o.name_clash:
                 # promoted names inside an allOf part lose the parent prefix and collide across schemas: keep parts flat
-                own = {k: v for k, v in own.items() if "properties" not in v and "additionalProperties" not in v and "oneOf" not in v and "anyOf" not in v
+                own = {k: v for k, v in own.items() if "properties" not in v and "additionalProperties" not in v and "oneOf" not in v and "anyOf" not in v and "enum" not in v
                        and not (v.get("type") == "array" and "properties" in v.get("items", {}))}
             part: dict = {"type": "object", "properties": own}
             reqo = [p for p in own if r.random() < 0.4]
             if reqo:
                 part["required"] = reqo
             schemas[name] = {"allOf": [_ref(parent), part]}
+            if o.allof_variants:
+                # a self reference among properties declared next to allOf loses every field (cycle class F52): keep those out
+                own = {k: v for k, v in own.items() if _ref(name) != v.get("items") and _ref(name) != v}
+                part = {"type": "object", "properties": own}
+                if [p for p in reqo if p in own]:
+                    part["required"] = [p for p in reqo if p in own]
+                schemas[name] = {"allOf": [_ref(parent), part]}
+                k2 = r.random()
+                inherited = list(_all_props(schemas, parent))
+                if k2 < 0.3:
+                    schemas[name] = {"allOf": [part, _ref(parent)]}                       # own part first
+                elif k2 < 0.55 and inherited:
+                    schemas[name] = {"allOf": [{"required": r.sample(inherited, 1)}, _ref(parent), part]}   # requirement-only part first
+                elif k2 < 0.8 and own:
+                    # properties (and their requirement) declared NEXT TO allOf
+                    schemas[name] = {"allOf": [_ref(parent), {"required": [next(iter(own))]}], "type": "object", "properties": own}
             continue
         schemas[name] = obj
     return schemas
@@ -268,7 +302,7 @@ def gen_operation(r: random.Random, o: Opts, schemas: dict, path_vars: list[str]
     declared_at_path = {p["name"] for p in path_level}
     for v in path_vars:
         if v not in declared_at_path:
-            params.append({"name": v, "in": "path", "required": True, "schema": r.choice([{"type": "string"}, {"type": "integer"}])})
+            params.append({"name": v, "in": "path", "required": True, "schema": r.choice([{"type": "string"}, {"type": "integer"}] + ([{"type": "string", "format": "date-time"}, {"type": "string", "format": "date"}] if "date" in o.formats else []))})
     used = {v for v in path_vars}
     for _ in range(r.randint(0, 3)):
         loc = r.choice(["query", "query", "header"] + (["cookie"] if o.cookie_params else []))
@@ -282,8 +316,8 @@ def gen_operation(r: random.Random, o: Opts, schemas: dict, path_vars: list[str]
             sch.pop("format")
         if loc == "header" and not o.typed_headers:
             sch = {"type": "string"}
-        if o.array_params and loc == "query" and r.random() < 0.2:
-            sch = {"type": "array", "items": {"type": "string"}}
+        if o.array_params and loc == "query" and r.random() < 0.25:
+            sch = {"type": "array", "items": r.choice([{"type": "string"}, {"type": "string", "format": "date"}] if "date" in o.formats else [{"type": "string"}])}
         p = {"name": name, "in": loc, "schema": sch}
         if r.random() < 0.3:
             p["required"] = True
@@ -317,7 +351,8 @@ def gen_responses(r: random.Random, o: Opts, schemas: dict) -> dict:
         resp["200"] = {"description": "stream", "content": {r.choice(["text/event-stream", "application/x-ndjson"] if o.ndjson else ["text/event-stream"]): {"schema": gen_body_schema(r, o, schemas)}}}
     if not stream_op or not o.mainstream:
         n2 = r.choice([1, 1, 1, 2])
-        codes2 = r.sample(["200", "201", "202", "204"], n2) if r.random() < 0.9 else ["206"]
+        k2x = r.random()
+        codes2 = r.sample(["200", "201", "202", "204"], n2) if k2x < 0.85 else (["206"] if k2x < 0.9 else r.sample(["203", "204", "206", "207", "226"], 2))
         for c in codes2:
             if c in resp:
                 continue
@@ -360,6 +395,9 @@ def gen_spec(r: random.Random, o: Opts | None = None) -> dict:
             else:
                 segs.append(r.choice(SEGS))
         path = "/" + "/".join(segs)
+        if paths and r.random() < 0.3:
+            path = r.choice(list(paths))        # another operation on an existing path item (shares path-level parameters)
+            pvars = re.findall(r"\{([^}]+)\}", path)
         item = paths.setdefault(path, {})
         path_level = item.get("parameters", [])
         if not item and o.path_level_params and pvars and r.random() < 0.4:
